@@ -228,6 +228,26 @@ def skipLine : List Tok → List Tok
   | .eof :: r => .eof :: r
   | _ :: r => skipLine r
 
+/-- `MAX_NESTING` of the definitions parser -/
+def maxNesting : Nat := 128
+
+/-- `nesting_depth`: parentheses and operators in the rest of the line (each adds a level to the
+tree the recursive parser builds) -/
+def nestingDepth : List Tok → Nat
+  | [] => 0
+  | .newline :: _ => 0
+  | .eof :: _ => 0
+  | t :: r =>
+    (match t with
+     | .lpar | .plus | .dash | .slash | .caret | .pipe => 1
+     | .ident "of" => 1
+     | _ => 0) + nestingDepth r
+
+/-- `parse_bounded`: an expression nested too deeply is skipped (to the end of its line) and
+becomes an error node -/
+def bounded (p : Nat → List Tok → Expr × List Tok) (fuel : Nat) (ts : List Tok) : Expr × List Tok :=
+  if nestingDepth ts > maxNesting then (.error "Expression is nested too deeply", skipLine ts) else p fuel ts
+
 def joinDoc (old : Option String) (line : String) : Option String :=
   match old with
   | none => some line.trimAscii.toString
@@ -248,17 +268,17 @@ def propsLoop (exprFuel : Nat) : Nat → List PropDef → Option String → List
        | .ident "const" =>
          (match peek (adv rest) with
           | .ident inputName =>
-            let (output, r) := pDiv exprFuel (adv (adv rest))
+            let (output, r) := bounded pDiv exprFuel (adv (adv rest))
             propsLoop exprFuel fuel (acc ++ [{ name := name, input := .const .one, inputName := inputName,
                                                output := output, outputName := name, doc := pdoc }]) none r
           | _ => (acc, adv (adv rest)))
        | .ident outputName =>
-         let (output, r) := pMul exprFuel (adv rest)
+         let (output, r) := bounded pMul exprFuel (adv rest)
          (match peek r with
           | .slash =>
             (match peek (adv r) with
              | .ident inputName =>
-               let (input, r2) := pMul exprFuel (adv (adv r))
+               let (input, r2) := bounded pMul exprFuel (adv (adv r))
                propsLoop exprFuel fuel (acc ++ [{ name := name, input := input, inputName := inputName,
                                                   output := output, outputName := outputName, doc := pdoc }]) none r2
              | _ => (acc, adv (adv r)))
@@ -301,7 +321,7 @@ def parseLoop (exprFuel : Nat) : Nat → PState → List Tok → PState
     | .doc line => parseLoop exprFuel fuel { st with doc := joinDoc st.doc line } rest
     | .ident name =>
       if name.endsWith "-" then
-        let (expr, r) := pAdd exprFuel rest
+        let (expr, r) := bounded pAdd exprFuel rest
         let n1 := (name.dropEnd 1).toString
         let (n, isLong) := if n1.endsWith "-" then ((n1.dropEnd 1).toString, false) else (n1, true)
         parseLoop exprFuel fuel { st with defs := st.defs ++ [{ name := n, defn := .prefix_ expr isLong, doc := st.doc, category := st.category }], doc := none } r
@@ -314,13 +334,13 @@ def parseLoop (exprFuel : Nat) : Nat → PState → List Tok → PState
              | _ => (none, r)
            parseLoop exprFuel fuel { st with defs := st.defs ++ [{ name := name, defn := .baseUnit long, doc := st.doc, category := st.category }], doc := none } r
          | .question =>
-           let (expr, r) := pAdd exprFuel (adv rest)
+           let (expr, r) := bounded pAdd exprFuel (adv rest)
            parseLoop exprFuel fuel { st with defs := st.defs ++ [{ name := name, defn := .quantity expr, doc := st.doc, category := st.category }], doc := none } r
          | .lbrace =>
            let (props, r) := propsLoop exprFuel fuel [] none (adv rest)
            parseLoop exprFuel fuel { st with defs := st.defs ++ [{ name := name, defn := .substance none props, doc := st.doc, category := st.category }], doc := none } r
          | _ =>
-           let (expr, r) := pAdd exprFuel rest
+           let (expr, r) := bounded pAdd exprFuel rest
            parseLoop exprFuel fuel { st with defs := st.defs ++ [{ name := name, defn := .unit expr, doc := st.doc, category := st.category }], doc := none } r)
     | _ => parseLoop exprFuel fuel st rest
 
